@@ -73,6 +73,10 @@ fn main() {
     };
     let mut ctx = Ctx::new(id, tier, seed);
     run::start_watchdog(id, 60);
+    if std::env::var("VERIF_JOURNAL").map(|v| v == "1").unwrap_or(false) {
+        // development aid: journal every case (as C03 always does) so that a watchdog exit names its case
+        run::enable_journal();
+    }
 
     if let Some(path) = replay {
         let raw = std::fs::read(&path).unwrap_or_else(|e| {
